@@ -344,6 +344,15 @@ theorem C06_session_in_history (w : World) (h : WOk w) (l : Nat) (ops : List Op)
   · exact pe
   · rw [r0] at hfin; exact absurd hfin (by decide)
 
+/-- … and with NO restriction on the history: over ANY history that keeps to the contract, from a world satisfying WOk in which `P` is
+    pending for iterator `i`, the packets the next_packet calls on `i` deliver are a prefix of `P` — each once, in order; a close or
+    abort of `i` inside the history ends the deliveries (afterwards calls on `i` are not executed: a dead entry of the iterator table
+    stays dead, `step_dead`). -/
+theorem C06_delivers_in_any_history (ops : List Op) (w : World) (h : WOk w) (hc : inContractHist w ops = true)
+    (i : Nat) (P : List (List (Str × V))) (hp : (absW w).pending i = some P) :
+    ∃ rest, P = deliveredBy i ops (run w ops).2 ++ rest :=
+  delivered_prefix_all C04_wok_step ops w h hc i P hp
+
 -- non-vacuity: CIF 0 with a three-packet loop, CIF 1 beside it; the session is interleaved with calls on CIF 1, an update and a removal
 private def pre : List Op :=
   [.cifNew, .mkBlock 0 (some (nm (a!"b"))), .mkLoop 0 none [nm (a!"_a"), nm (a!"_b")],
@@ -355,6 +364,8 @@ example : inContractHist {} (pre ++ .itOpen 0 :: sess) = true := by decide
 example : (step (run {} pre).1 (.itOpen 0)).2.rc = some CIF_OK := by decide
 example : sess.all (fun op => !op.endsIter (run {} pre).1.its.length) = true := by decide
 example : (deliveredBy 0 sess (run (step (run {} pre).1 (.itOpen 0)).1 sess).2).length = 3 := by decide
+example : (deliveredBy 0 (sess ++ [.itClose 0, .itNext 0, .getVal 0 (some (nm (a!"_a")))])
+    (run (step (run {} pre).1 (.itOpen 0)).1 (sess ++ [.itClose 0, .itNext 0, .getVal 0 (some (nm (a!"_a")))])).2).length = 3 := by decide
 example : WOk (run {} pre).1 := C04_wok_hist pre {} C04_wok_init (by decide)
 example := C06_session_in_history (run {} pre).1 (C04_wok_hist pre {} C04_wok_init (by decide)) 0 sess (by decide) (by decide) (by decide)
 
